@@ -1,6 +1,8 @@
 package c04
 
 import (
+	"bytes"
+	"crypto/sha256"
 	"encoding/base64"
 	"fmt"
 	"testing"
@@ -10,6 +12,7 @@ import (
 	"github.com/google/certificate-transparency-go/trillian/util"
 	"github.com/google/certificate-transparency-go/x509"
 	"github.com/google/certificate-transparency-go/x509util"
+	"github.com/google/trillian"
 	"pgregory.net/rapid"
 
 	"verif/internal/harness"
@@ -29,6 +32,10 @@ type EncCase struct {
 	PreCert  *Blob     `json:",omitempty"` // PrecertChainEntry.pre_certificate
 	Chain    []Blob    `json:",omitempty"`
 	Index    int64     `json:",omitempty"`
+	// many tiny chain elements after Chain (element COUNT boundaries of vectors of structures)
+	ChainMany *Many `json:",omitempty"`
+	// process-wide klog verbosity while the repository's leaf builders run (0..5)
+	KlogV int `json:",omitempty"`
 
 	// sct: SignedCertificateTimestamp + its DigitallySigned
 	SCT *SCTSpec `json:",omitempty"`
@@ -37,9 +44,40 @@ type EncCase struct {
 	STH *STHSpec `json:",omitempty"`
 
 	// sctlist: SignedCertificateTimestampList, from raw items or from SCT values
-	Items []Blob    `json:",omitempty"`
-	SCTs  []SCTSpec `json:",omitempty"`
-	Typed bool      `json:",omitempty"`
+	Items     []Blob    `json:",omitempty"`
+	ItemsMany *Many     `json:",omitempty"` // many tiny raw items after Items
+	SCTs      []SCTSpec `json:",omitempty"`
+	Typed     bool      `json:",omitempty"`
+}
+
+// Many stands for N elements of ElemLen (1..3) bytes each, cut from one seeded fill.
+type Many struct {
+	N, ElemLen int
+	Seed       uint32
+}
+
+func (m *Many) elems() [][]byte {
+	if m == nil {
+		return nil
+	}
+	all := Blob{N: m.N * m.ElemLen, Seed: m.Seed}.Bytes()
+	out := make([][]byte, m.N)
+	for i := range out {
+		out[i] = all[i*m.ElemLen : (i+1)*m.ElemLen : (i+1)*m.ElemLen]
+	}
+	return out
+}
+
+// element counts for vectors of structures: around one-byte counters, around 4096, and the most a
+// 2-byte SCT list can hold (21845 one-byte items = 65535 bytes)
+var manyCounts = []int{255, 256, 4095, 4096, 4097, 5000, 21845}
+
+func genMany(t *rapid.T, label string, forList bool) *Many {
+	m := &Many{N: pickFrom(t, label+"-n", manyCounts), ElemLen: 1 + pick(t, label+"-len", 3), Seed: rapid.Uint32().Draw(t, label+"-seed")}
+	if forList && m.N*(2+m.ElemLen) > max16 {
+		m.ElemLen = 1
+	}
+	return m
 }
 
 var listTotals = []int{1, 2, 3, 4, 255, 256, 65335, 65336, 65337, 65400, 65534, 65535, 65536, 65537}
@@ -108,6 +146,10 @@ func genEnc(t *rapid.T) EncCase {
 		}
 		c.PreCert = &p
 		c.Chain = genChain(t, huge)
+		if huge == 0 && pick(t, "chain-many", 16) == 15 {
+			c.ChainMany = genMany(t, "chain-many", false)
+		}
+		c.KlogV = pick(t, "klogv", 6)
 		c.Index = rapid.Int64().Draw(t, "index")
 	case k < 65:
 		c.Kind = "sct"
@@ -130,6 +172,15 @@ func genEnc(t *rapid.T) EncCase {
 			n = 1
 		}
 		used := 0
+		if pick(t, "items-many", 12) == 11 {
+			c.Typed = false
+			c.ItemsMany = genMany(t, "items-many", true)
+			if pick(t, "items-many-only", 2) == 0 {
+				n = 0
+			} else {
+				total = 0 // a few ordinary items in front
+			}
+		}
 		if !c.Typed {
 			for i := 0; i < n; i++ {
 				b := genSmallBlob(t, fmt.Sprintf("item%d", i), 1, 50)
@@ -279,7 +330,7 @@ func encLeaf(v *harness.Verdict, c EncCase, note func(int)) {
 	}
 
 	// 5. extra data
-	chain := blobsBytes(c.Chain)
+	chain := append(blobsBytes(c.Chain), c.ChainMany.elems()...)
 	total := 0
 	for _, b := range chain {
 		total += 3 + len(b)
@@ -352,18 +403,76 @@ func encLeaf(v *harness.Verdict, c EncCase, note func(int)) {
 			}
 		}
 	}
+
+	// 8. the repository's leaf builders (what the front end hands to the backend), at the case's klog verbosity
+	if len(want) > 1<<20 || len(wantChain) > 1<<20 || len(wantPre) > 1<<20 {
+		return // the 16 MB cases stay with the codecs above
+	}
+	harness.SetKlogVerbosity(c.KlogV)
+	defer harness.SetKlogVerbosity(0)
+	v.Class(fmt.Sprintf("builders:klog-v=%d", c.KlogV))
+	isPre := spec.Entry.Type == 1
+	cert, wantExtra, wantExtraErr := ref.Entry.Cert, wantChain, wantChainErr
+	if isPre {
+		cert, wantExtra, wantExtraErr = pre, wantPre, wantPreErr
+	}
+	wantID := sha256.Sum256(cert)
+	judgeBuilt := func(api string, ll *trillian.LogLeaf, err error, extra []byte, extraErr error) {
+		refErr := wantErr
+		if refErr == nil {
+			refErr = extraErr
+		}
+		switch {
+		case lenient && err != nil:
+		case refErr != nil && err == nil:
+			v.Failf("builder-accepts-invalid:"+api, "%s built a log leaf from values the RFC cannot encode (%v)", api, refErr)
+		case refErr == nil && err != nil:
+			v.Failf("builder-refuses-valid:"+api, "%s refused a valid entry: %v", api, err)
+		case refErr == nil:
+			if !bytes.Equal(ll.LeafValue, want) {
+				v.Failf("builder-leaf-bytes:"+api, "%s (klog -v=%d): LeafValue differs from the RFC MerkleTreeLeaf: %s", api, c.KlogV, firstDiff(ll.LeafValue, want))
+			}
+			if !bytes.Equal(ll.ExtraData, extra) {
+				v.Failf("builder-extra-bytes:"+api, "%s (klog -v=%d): ExtraData differs from the expected extra_data: %s", api, c.KlogV, firstDiff(ll.ExtraData, extra))
+			}
+			if ll.LeafIndex != c.Index || !bytes.Equal(ll.LeafIdentityHash, wantID[:]) {
+				v.Failf("builder-fields:"+api, "%s: LeafIndex %d (want %d) or LeafIdentityHash %x (want SHA-256 of the submitted certificate %x)", api, ll.LeafIndex, c.Index, ll.LeafIdentityHash, wantID)
+			}
+		}
+	}
+	ll, err := util.BuildLogLeaf("c04", repoLeaf, c.Index, ct.ASN1Cert{Data: cert}, repoChain, isPre)
+	judgeBuilt("BuildLogLeaf", ll, err, wantExtra, wantExtraErr)
+	// with the chain replaced by its hash: extra_data is the repository's own structure (pre_certificate<1..2^24-1>
+	// for precerts, then opaque hash<0..256>), the leaf is still the RFC's
+	chainHash := hash32(uint32(c.Index))
+	hv, _ := rfc6962.Vec(chainHash[:], 0, 256)
+	var hashExtra []byte
+	var hashExtraErr error
+	if isPre {
+		var pv []byte
+		pv, hashExtraErr = rfc6962.Vec(pre, 1, max24)
+		hashExtra = append(pv, hv...)
+	} else {
+		hashExtra = hv
+	}
+	ll2, err2 := util.BuildLogLeafWithChainHash("c04", repoLeaf, c.Index, ct.ASN1Cert{Data: cert}, chainHash[:], isPre)
+	judgeBuilt("BuildLogLeafWithChainHash", ll2, err2, hashExtra, hashExtraErr)
 }
 
 func countClass(n int) string {
 	switch {
-	case n == 0:
-		return "0"
-	case n == 1:
-		return "1"
-	case n <= 4:
-		return "2..4"
+	case n <= 2, n == 255, n == 256, n == 4095, n == 4096, n == 4097:
+		return fmt.Sprint(n)
+	case n < 255:
+		return "3..254"
+	case n < 4095:
+		return "257..4094"
+	case n < 21845:
+		return "4098..21844"
+	case n == 21845:
+		return "21845"
 	default:
-		return ">4"
+		return ">21845"
 	}
 }
 
@@ -464,7 +573,7 @@ func encList(v *harness.Verdict, c EncCase, note func(int)) {
 		}
 	} else {
 		v.Class("list:raw")
-		items = blobsBytes(c.Items)
+		items = append(blobsBytes(c.Items), c.ItemsMany.elems()...)
 	}
 	body := 0
 	for _, it := range items {
@@ -570,7 +679,7 @@ func listClass(n int) string {
 // Encode is the value-to-bytes half of C04.
 var Encode = harness.Define(harness.Opts{
 	Name:  "encode",
-	Rule:  "one value per case of MerkleTreeLeaf (+ leaf hash, SCT signature input, CertificateChain / PrecertChainEntry / ExtraDataForChain, RawLogEntryFromLeaf), SignedCertificateTimestamp + DigitallySigned, STH signature input, or SignedCertificateTimestampList (raw items or MarshalSCTsIntoSCTList); lengths drawn from {0,1,127,128,255,256,65534,65535,65536} (45%), 0..40 (40%), 0..70000 (15%), one 16 MB slot (2^24-2, 2^24-1, 2^24) in 1 of 250 leaf cases; SCT list bodies steered to {1..4,255,256,65335,65336,65337,65400,65534..65537}; versions / leaf types {0,1,2,127,128,255}, entry types {0,1,2,0x100,0x7fff,0x8000,0xffff}, algorithm octets 0..255, timestamps at 2^32, 2^53, 2^63, 2^64 edges. Compared with internal/rfc6962 (accept/refuse and bytes), reference bytes decoded back. Non-trivial: some length at a 1/2/3-byte boundary (or an STH with a 64-bit operand / unknown version)",
+	Rule:  "one value per case of MerkleTreeLeaf (+ leaf hash, SCT signature input, CertificateChain / PrecertChainEntry / ExtraDataForChain, RawLogEntryFromLeaf, util.BuildLogLeaf / BuildLogLeafWithChainHash at klog verbosity 0..5), SignedCertificateTimestamp + DigitallySigned, STH signature input, or SignedCertificateTimestampList (raw items or MarshalSCTsIntoSCTList); lengths drawn from {0,1,127,128,255,256,65534,65535,65536} (45%), 0..40 (40%), 0..70000 (15%), one 16 MB slot (2^24-2, 2^24-1, 2^24) in 1 of 250 leaf cases; 1 leaf case in 16 and 1 list case in 12 carry 255, 256, 4095, 4096, 4097, 5000 or 21845 elements of 1-3 bytes (element-count boundaries of vectors of structures); SCT list bodies steered to {1..4,255,256,65335,65336,65337,65400,65534..65537}; versions / leaf types {0,1,2,127,128,255}, entry types {0,1,2,0x100,0x7fff,0x8000,0xffff}, algorithm octets 0..255, timestamps at 2^32, 2^53, 2^63, 2^64 edges. Compared with internal/rfc6962 (accept/refuse and bytes), reference bytes decoded back. Non-trivial: some length at a 1/2/3-byte boundary (or an STH with a 64-bit operand / unknown version)",
 	Quick: 3000, Thorough: 30000, MaxSample: 700,
 }, genEnc, checkEnc)
 
